@@ -1,16 +1,38 @@
 import Zc.Model.Link
+import Zc.Proofs.LinkBridgeEval
+import Driver.C08
+import Driver.C10
+import Driver.C12
 /-! line protocol for C07 (link traces and the contracts K1–K7).
 
 `c07 <endT> <n> <event>…` with events
 `up t h` · `close t h` · `reg|upd|unreg t o ty i` · `browse t h ty i` · `send t h d dst|- <items>` ·
 `dlv t d src h mc <items>` · `add|rem t bh bty bi so sty si` · `obs t`; `<items>` = `n` then `p o ty i ttl full` | `q ty k (o ty i)ᵏ qu`.
-Answer: `WF=b K1=b … K7=b K5a=b K6f=b K3b=b KF=b conv=b lastChange=t state=<browser>.<svc>:<live><held><registered>,…`. -/
+Answer: `WF=b K1=b … K7=b K5a=b K6f=b K3b=b KF=b conv=b lastChange=t state=<browser>.<svc>:<live><held><registered>,…`.
+
+Projection hypotheses of `C07_convergence_from_models_partial`, evaluated on the block log of one real host / browser
+(`Zc.Bridge.hostEval`, `browserEval`, `cacheEval`, `respEval`; `<trace>` = `<n> <event>…` as above, strings hex-encoded as everywhere):
+
+* `c07host <endT> <trace> <hid> <types> <svcs> <T0> <nblocks> (<t> <adst|-> <block>)…` — `<types>`/`<svcs>` = `n (nameHex id)…`: the
+  link numbers of type names and instance names; `<block>` = an op of `c08run` (`reg`/`upd`/`unreg`/`task`/`ans`/`enq`/`rdy`/`all`/
+  `alls`/`close`), executed at `t`; `adst` = the host an `ans` block unicasts to (`-` = multicast).
+  Answer: `run=b rej=i|- names=b disc=b spaced=b distinct=b fair=b open=b sendsIn=b sendsOut=b regsIn=b regsOut=b updsIn=b updsOut=b
+  unregsIn=b unregsOut=b`.
+* `c07browser <endT> <trace> <tb> <bh bty bi> <ntypes> <typeHex>… <nameHex> <minDelay> <tS> <npre0> <op>… <d> <nevs> <op>…
+  <naliases> (<o ty i> <aliasHex>)…` — `<op>` = an op of `c10run` (`P`/`C`/`F`; no `S`: the start block is `(tb, start d)`).
+  Answer: `run=b nIn=b idle=b active=b covers=b wire=b rate=b names=b learned=b wireWithout=b`.
+* `c07cache <endT> <trace> <tb> <bh bty bi> <npre> <cev>… <nevs> <cev>…` — `<cev>` = `D t d` (the host's cache processes the datagram
+  with link id `d` at `t`: its pointer items become pointer records) | `P t` (the periodic purge).  Names are synthesised.
+  Answer: `cb=b cbOther=b cacheUp=b cacheDown=b`.
+* `c07resp <endT> <trace> <hid> <types> <svcs> <ntbl> <rec>… <naddrs> (<addr> <host>)… <c0> <nks> <kev>…` — `<rec>` as `Rec.parse`,
+  `<kev>` = `B <ev of c12run>` | `G t <n> <recId>…` (the D5 purge).
+  Answer: `run=b covers=b noTC=b purgeKeeps=b rx=b isQuery=b outs=b purge=b query=-`. -/
 namespace Zc.Driver.C07
 open Zc Zc.Link
 
 def b01 (b : Bool) : String := if b then "1" else "0"
 
-def pSvc : Tok Svc := do let o ← Tok.nat; let ty ← Tok.nat; let i ← Tok.nat; pure ⟨o, ty, i⟩
+def pSvc : Tok Link.Svc := do let o ← Tok.nat; let ty ← Tok.nat; let i ← Tok.nat; pure ⟨o, ty, i⟩
 def pBr : Tok Br := do let o ← Tok.nat; let ty ← Tok.nat; let i ← Tok.nat; pure ⟨o, ty, i⟩
 
 def pItem : Tok Item := do
@@ -47,12 +69,12 @@ def parse : Tok (Int × Trace) := do
   Tok.done
   pure (endT, tr)
 
-def dedupS : List Svc → List Svc → List Svc
+def dedupS : List Link.Svc → List Link.Svc → List Link.Svc
   | [], acc => acc.reverse
   | s :: r, acc => if acc.contains s then dedupS r acc else dedupS r (s :: acc)
 
 /-- services in order of first appearance in `reg` / `added` / `removed` events -/
-def svcU (tr : Trace) : List Svc :=
+def svcU (tr : Trace) : List Link.Svc :=
   dedupS (tr.filterMap fun e => match e.e with | .reg s => some s | .added _ s => some s | .removed _ s => some s | _ => none) []
 
 def run (endT : Int) (tr : Trace) : String :=
@@ -70,11 +92,143 @@ def run (endT : Int) (tr : Trace) : String :=
   s!"K4={b01 (K4 cfg tr endT)} K5={b01 (K5 cfg tr endT)} K6={b01 (K6 cfg tr)} K7={b01 (K7 cfg tr endT)} K5a={b01 (K5added tr)} K6f={b01 (K6full tr)} K3b={b01 (K3b cfg tr endT)} KF={b01 (KF cfg tr endT)} conv={b01 conv} " ++
   s!"lastChange={lastChange tr} state={if st.isEmpty then "-" else ",".intercalate st}"
 
+/-! ### projection hypotheses on block logs -/
+
+def pTrace : Tok Trace := Tok.list pEv
+
+def pTable : Tok (List (String × Nat)) := Tok.list (do let n ← Tok.str; let i ← Tok.nat; pure (asciiLower n, i))
+
+/-- a name the tables do not list gets a number outside them -/
+def lookupId (tbl : List (String × Nat)) (n : String) : Nat := ((tbl.find? fun p => p.1 == n).map (·.2)).getD 4000000000
+
+def noDup : List Nat → Bool
+  | [] => true
+  | x :: r => !(r.contains x) && noDup r
+
+def tableOK (tbl : List (String × Nat)) : Bool := noDup (tbl.map (·.2)) && (tbl.all fun p => (tbl.filter fun q => q.1 == p.1).length == 1)
+
+def pBlock : Tok (Int × Goodbye.Block × Option Nat) := do
+  let t ← Tok.int
+  let ad ← Tok.optNat
+  let op ← Zc.Driver.C08.parseOp
+  match op with
+  | .blk b _ => pure (t, b, ad)
+  | _ => failure
+
+def blockSvc : Goodbye.Block → Option Register.Svc
+  | .register s _ _ => some s
+  | .update s _ _ => some s
+  | .unregister s _ _ => some s
+  | _ => none
+
+def c07host (toks : List String) : String :=
+  let p : Tok (Int × Trace × Nat × List (String × Nat) × List (String × Nat) × Int × List (Int × Goodbye.Block × Option Nat)) := do
+    let endT ← Tok.int; let tr ← pTrace; let hid ← Tok.nat; let tys ← pTable; let svs ← pTable; let T0 ← Tok.int
+    let bl ← Tok.list pBlock
+    Tok.done
+    pure (endT, tr, hid, tys, svs, T0, bl)
+  match p.run toks with
+  | none => "bad-op"
+  | some ((endT, tr, hid, tys, svs, T0, bl), _) =>
+    let N : Bridge.Naming := ⟨hid, lookupId tys, lookupId svs⟩
+    let names := tableOK tys && tableOK svs && bl.all fun x => match blockSvc x.2.1 with
+      | some s => (tys.any fun q => q.1 == asciiLower s.type) && (svs.any fun q => q.1 == asciiLower s.name)
+      | none => true
+    match Bridge.mkRunD asciiLower Goodbye.Host.init T0 bl with
+    | none =>
+      let r := match Bridge.rejAt asciiLower Goodbye.Host.init T0 bl 0 with | some i => toString i | none => "-"
+      s!"run=0 rej={r} names={b01 names}"
+    | some steps =>
+      let e := Bridge.hostEval asciiLower N tr endT steps
+      s!"run=1 rej=- names={b01 names} disc={b01 e.disc} spaced={b01 e.spaced} distinct={b01 e.distinct} fair={b01 e.fair} " ++
+      s!"open={b01 e.opened} sendsIn={b01 e.sendsIn} sendsOut={b01 e.sendsOut} regsIn={b01 e.regsIn} regsOut={b01 e.regsOut} " ++
+      s!"updsIn={b01 e.updsIn} updsOut={b01 e.updsOut} unregsIn={b01 e.unregsIn} unregsOut={b01 e.unregsOut}"
+
+def c07browser (toks : List String) : String :=
+  let p : Tok (Int × Trace × Int × Br × List String × String × Nat × Int × List (Int × Sched.Op) × Nat × List (Int × Sched.Op)
+      × List (Link.Svc × String)) := do
+    let endT ← Tok.int; let tr ← pTrace; let tb ← Tok.int; let b ← pBr; let types ← Tok.list Tok.str; let n ← Tok.str
+    let minDelay ← Tok.nat; let tS ← Tok.int
+    let pre0 ← Tok.list Zc.Driver.C10.parseOp; let d ← Tok.nat; let evs ← Tok.list Zc.Driver.C10.parseOp
+    let al ← Tok.list (do let s ← pSvc; let a ← Tok.str; pure (s, asciiLower a))
+    Tok.done
+    pure (endT, tr, tb, b, types, n, minDelay, tS, pre0, d, evs, al)
+  match p.run toks with
+  | none => "bad-op"
+  | some ((endT, tr, tb, b, types, n, minDelay, tS, pre0, d, evs, al), _) =>
+    let aliasOf : Link.Svc → String := fun s => ((al.find? fun q => q.1 == s).map (·.2)).getD s!"?{s.owner}.{s.ty}.{s.idx}"
+    let e := Bridge.browserEval tr endT tb b types n minDelay tS pre0 d evs aliasOf
+    s!"run={b01 e.run} nIn={b01 e.nIn} idle={b01 e.idle} active={b01 e.active} covers={b01 e.covers} wire={b01 e.wire} " ++
+    s!"rate={b01 e.rate} names={b01 e.names} learned={b01 e.learned} wireWithout={b01 e.wireWithout}"
+
+/-- synthesised, well-formed names for the cache model -/
+def tyNameOf (ty : Nat) : String := s!"_t{ty}._tcp.local."
+def aliasNameOf (s : Link.Svc) : String := s!"i{s.idx}o{s.owner}.{tyNameOf s.ty}"
+
+/-- the pointer records of a datagram as the cache sees them -/
+def recsOfItems (now : Int) (items : List Item) : List Rec :=
+  items.filterMap fun it => match it with
+    | .ptr s ttl _ => some ⟨tyNameOf s.ty, 12, 1, false, ttl, now, .ptr (aliasNameOf s)⟩
+    | _ => none
+
+def pCev (tr : Trace) (h : Nat) : Tok Event := do
+  let k ← Tok.next
+  let t ← Tok.int
+  match k with
+  | "D" => do
+    let d ← Tok.nat
+    match (dlvs tr).find? fun e => e.h == h && e.d == d && e.t == t with
+    | some e => pure (.datagram t (recsOfItems t e.items))
+    | none => failure
+  | "P" => pure (.purge t)
+  | _ => failure
+
+def c07cache (toks : List String) : String :=
+  let p : Tok (Int × Trace × Int × Br × List Event × List Event) := do
+    let endT ← Tok.int; let tr ← pTrace; let tb ← Tok.int; let b ← pBr
+    let pre ← Tok.list (pCev tr b.host); let evs ← Tok.list (pCev tr b.host)
+    Tok.done
+    pure (endT, tr, tb, b, pre, evs)
+  match p.run toks with
+  | none => "bad-op"
+  | some ((endT, tr, tb, b, pre, evs), _) =>
+    let e := Bridge.cacheEval asciiLower possibleTypes tr endT tb b [tyNameOf b.ty] (tyNameOf b.ty) aliasNameOf pre evs
+    s!"cb={b01 e.cb} cbOther={b01 e.cbOther} cacheUp={b01 e.cacheUp} cacheDown={b01 e.cacheDown}"
+
+def pKev : Tok Bridge.KEv := do
+  let k ← Tok.next
+  match k with
+  | "B" => do let e ← Zc.Driver.C12.pEv; pure (.blk e)
+  | "G" => do let t ← Tok.int; let W ← Tok.natList; pure (.purge t W)
+  | _ => failure
+
+def c07resp (toks : List String) : String :=
+  let p : Tok (Int × Trace × Nat × List (String × Nat) × List (String × Nat) × List Rec × List (Nat × Nat) × Int × List Bridge.KEv) := do
+    let endT ← Tok.int; let tr ← pTrace; let hid ← Tok.nat; let tys ← pTable; let svs ← pTable
+    let tbl ← Tok.list Rec.parse
+    let addrs ← Tok.list (do let a ← Tok.nat; let h ← Tok.nat; pure (a, h))
+    let c0 ← Tok.int
+    let ks ← Tok.list pKev
+    Tok.done
+    pure (endT, tr, hid, tys, svs, tbl, addrs, c0, ks)
+  match p.run toks with
+  | none => "bad-op"
+  | some ((endT, tr, hid, tys, svs, tbl, addrs, c0, ks), _) =>
+    let N : Bridge.Naming := ⟨hid, lookupId tys, lookupId svs⟩
+    let hostOf : Nat → Nat := fun a => ((addrs.find? fun q => q.1 == a).map (·.2)).getD 4000000000
+    let e := Bridge.respEval asciiLower N tr endT tbl hostOf c0 ks
+    s!"run={b01 e.run} covers={b01 e.covers} noTC={b01 e.noTC} purgeKeeps={b01 e.purgeKeeps} rx={b01 e.rx} " ++
+    s!"isQuery={b01 e.isQuery} outs={b01 e.outs} purge={b01 e.purge} query=-"
+
 def dispatch (cmd : String) (rest : List String) : Option String :=
   if cmd = "c07" then
     some (match parse.run rest with
       | some ((endT, tr), _) => run endT tr
       | none => "bad-op")
+  else if cmd = "c07host" then some (c07host rest)
+  else if cmd = "c07browser" then some (c07browser rest)
+  else if cmd = "c07cache" then some (c07cache rest)
+  else if cmd = "c07resp" then some (c07resp rest)
   else none
 
 end Zc.Driver.C07
